@@ -80,9 +80,9 @@ func dumpDBs(cl *redisemu.VClient) (perDB []string, err error) {
 			fmt.Fprintf(&sb, "%q:%s=", k, t)
 			switch t {
 			case "string":
-				fmt.Fprintf(&sb, "%q", do("GET", k).S)
+				fmt.Fprintf(&sb, "%q len=%d", do("GET", k).S, do("STRLEN", k).I)
 			case "list":
-				fmt.Fprintf(&sb, "%q", strs(do("LRANGE", k, "0", "-1")))
+				fmt.Fprintf(&sb, "%q len=%d", strs(do("LRANGE", k, "0", "-1")), do("LLEN", k).I)
 			case "hash":
 				a := strs(do("HGETALL", k))
 				var pairs []string
@@ -90,11 +90,11 @@ func dumpDBs(cl *redisemu.VClient) (perDB []string, err error) {
 					pairs = append(pairs, fmt.Sprintf("%q=%q", a[i], a[i+1]))
 				}
 				sort.Strings(pairs)
-				fmt.Fprintf(&sb, "%v", pairs)
+				fmt.Fprintf(&sb, "%v len=%d", pairs, do("HLEN", k).I)
 			case "set":
 				a := strs(do("SMEMBERS", k))
 				sort.Strings(a)
-				fmt.Fprintf(&sb, "%q", a)
+				fmt.Fprintf(&sb, "%q len=%d", a, do("SCARD", k).I)
 			}
 			fmt.Fprintf(&sb, " pttl=%d;", do("PTTL", k).I)
 		}
@@ -121,7 +121,56 @@ func c19Fixtures() [][]Op {
 		fixtureOps("100000"),
 		append(fixtureOps(""), c("SELECT", "1"), c("SET", "ks", "one"), c("RPUSH", "kl", "a", "b"), c("HSET", "kh", "f", "1"), c("SADD", "kz", "m"), c("SELECT", "15"), c("SET", "ks", "fifteen"), c("RPUSH", "kl", "z"), c("SELECT", "0")),
 		{},
+		c19BigFixture(),
 	}
+}
+
+// c19BigFixture: collections whose tables have grown and carry a removal history (the snapshot
+// header stores both), a keyspace that has grown and shrunk, a value of several file-system
+// writes, and names / values / fields / members / elements that are empty or not text
+func c19BigFixture() []Op {
+	seq := func(head []string, prefix string, from, to int) Op {
+		a := append([]string{}, head...)
+		for i := from; i < to; i++ {
+			a = append(a, fmt.Sprintf("%s%d", prefix, i))
+		}
+		return c(a...)
+	}
+	pairs := []string{"HSET", "kh", "f", "1", "g", "x"}
+	for i := 0; i < 40; i++ {
+		pairs = append(pairs, fmt.Sprintf("f%d", i), fmt.Sprint(i))
+	}
+	ops := []Op{
+		c("SET", "ks", strings.Repeat("0123456789", 2000)),
+		seq([]string{"RPUSH", "kl", "e", "f2"}, "e", 0, 40),
+		c(pairs...), seq([]string{"HDEL", "kh"}, "f", 5, 30),
+		seq([]string{"SADD", "kz", "m", "n2"}, "m", 0, 40), seq([]string{"SREM", "kz"}, "m", 5, 30),
+		c("RPUSH", "ksrt", "ks", "kn", "kl"),
+		c("SET", "bin\r\n\x00\xff", "v\r\n\x00\xff"), c("SET", "", "empty-name"), c("SET", "empty", ""),
+		c("HSET", "hb", "", "", "\r\n", "\x00", "\xff\xfe", "*1\r\n$1\r\nx\r\n"), c("SADD", "sb", "", "\xff\xfe", "\r\n"), c("RPUSH", "lb", "", "\r\n", "", "\x00"),
+	}
+	for i := 0; i < 40; i++ {
+		ops = append(ops, c("SET", fmt.Sprintf("k%d", i), fmt.Sprint(i)))
+	}
+	ops = append(ops, seq([]string{"DEL"}, "k", 5, 30))
+	return ops
+}
+
+// c19Probe: commands run after the restart on the restarted instance AND on the instance that
+// was never shut down (it is still there, in memory): both must stay in step - a snapshot that
+// reads back correctly but restores a collection's bookkeeping wrongly (element count, table size,
+// removal counter, object numbers, list links) shows at the next write
+func c19Probe() [][]string {
+	var out [][]string
+	for _, db := range []string{"1", "15", "0"} {
+		out = append(out, []string{"SELECT", db},
+			[]string{"RPUSH", "kl", "p1", "p2"}, []string{"LPOP", "kl"}, []string{"LSET", "kl", "-1", "q"}, []string{"LINSERT", "kl", "AFTER", "e", "ins"}, []string{"LREM", "kl", "1", "f2"}, []string{"LLEN", "kl"}, []string{"LMOVE", "kl", "kl", "RIGHT", "LEFT"},
+			[]string{"HSET", "kh", "p", "1"}, []string{"HDEL", "kh", "f", "f0", "f1", "f2", "f3", "f4", "f30", "f31", "f32", "f33", "f34"}, []string{"HINCRBY", "kh", "g2", "1"}, []string{"HLEN", "kh"},
+			[]string{"SADD", "kz", "p"}, []string{"SREM", "kz", "m", "m0", "m1", "m2", "m3", "m4", "m30", "m31", "m32", "m33"}, []string{"SCARD", "kz"}, []string{"SINTERSTORE", "kd2", "kz", "kz"},
+			[]string{"APPEND", "ks", "p"}, []string{"STRLEN", "ks"}, []string{"SET", "kp", "probe"}, []string{"DEL", "k0", "k1", "k2", "k3", "k4", "k30", "k31", "k32"}, []string{"DBSIZE"}, []string{"RENAME", "kp", "kp2"}, []string{"COPY", "kl", "klc"},
+			[]string{"WATCH", "ks"}, []string{"MULTI"}, []string{"SET", "kw", "1"}, []string{"EXEC"})
+	}
+	return out
 }
 
 var c19Multi = [][]string{
@@ -178,7 +227,7 @@ func c19List(tier string) (out []c19Case, nHist, nCrash int) {
 			single = append(single, a)
 		}
 	}
-	for _, k := range []string{"kn", "ks", "kl", "kh", "kz"} {
+	for _, k := range []string{"kn", "ks", "kl", "kh", "kz", "ke"} {
 		for _, op := range commandMatrix(k, true) {
 			addOp(op.Args)
 		}
@@ -316,7 +365,8 @@ func runC19(cs c19Case) (cr caseResult) {
 	redisemu.VResetGlobals()
 	vos.ResetFS()
 	verifrt.SetNow(time.UnixMilli(epochMs).UTC())
-	var before0, before, after []string
+	var before0, before, after, cont1, cont2 []string
+	var probeDiff string
 	var derr error
 	var saveErr error
 	var trouble string
@@ -359,7 +409,26 @@ func runC19(cs c19Case) (cr caseResult) {
 		}
 		vi2 := redisemu.VNew(c19Base)
 		cl2 := vi2.NewClient()
-		after, derr = dumpDBs(cl2)
+		if after, derr = dumpDBs(cl2); derr != nil {
+			return
+		}
+		// life after the restart: the restarted instance and the one that never stopped stay in step
+		probe1, probe2 := vi.NewClient(), vi2.NewClient()
+		for _, o := range c19Probe() {
+			r1, e1 := vm.Parse1(probe1.Do(o...))
+			r2, e2 := vm.Parse1(probe2.Do(o...))
+			if e1 != nil || e2 != nil {
+				trouble = fmt.Sprintf("probe %v: %v %v", o, e1, e2)
+				return
+			}
+			if o[0] != "DBSIZE" && vm.Canon(r1) != vm.Canon(r2) && probeDiff == "" { // DBSIZE may count expired keys not yet reaped
+				probeDiff = fmt.Sprintf("%v answers %s on the instance that kept running and %s on the restarted one", o, r1.String(), r2.String())
+			}
+		}
+		if cont1, derr = dumpDBs(obs); derr != nil {
+			return
+		}
+		cont2, derr = dumpDBs(cl2)
 	})
 	viol := func(sig, detail string) caseResult {
 		return caseResult{Status: "violation", Sig: sig + "|" + c19Class(cs), Detail: c19Name(cs) + ": " + detail, Trace: map[string]any{"fixture": cmdListOps(c19Fixtures()[cs.fixture]), "ops": cs.ops, "save_after": cs.saveAt, "restart_delay_ms": cs.delay}, Units: 1}
@@ -383,6 +452,14 @@ func runC19(cs c19Case) (cr caseResult) {
 				kind = "restart-lost-database"
 			}
 			return viol(fmt.Sprintf("%s|db%d", kind, c19DBs[i]), fmt.Sprintf("database %d before shutdown {%s} after restart {%s}", c19DBs[i], clipB([]byte(before[i])), clipB([]byte(after[i]))))
+		}
+	}
+	if probeDiff != "" {
+		return viol("diverges-after-restart|reply", "after the restart (state read back identical): "+probeDiff)
+	}
+	for i := range cont1 {
+		if cont1[i] != cont2[i] {
+			return viol(fmt.Sprintf("diverges-after-restart|db%d", c19DBs[i]), fmt.Sprintf("the same commands after the restart leave database %d as {%s} on the instance that kept running and as {%s} on the restarted one", c19DBs[i], clipB([]byte(cont1[i])), clipB([]byte(cont2[i]))))
 		}
 	}
 	cr.Status = "ok"
